@@ -540,6 +540,12 @@ func (txn *Txn) commit() {
 			return
 		}
 
+		// Deleted rows are cleared from the columns last, so that nothing which this
+		// transaction also stored into a row it deletes survives on the dead offset.
+		if changedRows {
+			txn.commitDeletes(chunk, markers)
+		}
+
 		// If there is a pending snapshot, append commit into a temp log
 		if dst, ok := txn.owner.isSnapshotting(); ok {
 			dst.Append(commit.Commit{
@@ -607,17 +613,19 @@ func (txn *Txn) commitMarkers(chunk commit.Chunk, fill bitmap.Bitmap, buffer *co
 		txn.owner.lock.Unlock()
 	})
 
-	// We also need to apply the delete operations on the column so it
-	// can remove unnecessary data.
+	txn.owner.lock.Lock()
+	atomic.StoreUint64(&txn.owner.count, uint64(txn.owner.fill.Count()))
+	txn.owner.lock.Unlock()
+}
+
+// commitDeletes applies the delete operations on the columns so they can remove
+// unnecessary data.
+func (txn *Txn) commitDeletes(chunk commit.Chunk, buffer *commit.Buffer) {
 	txn.reader.Range(buffer, chunk, func(r *commit.Reader) {
 		txn.owner.cols.Range(func(column *column) {
 			column.Apply(chunk, r)
 		})
 	})
-
-	txn.owner.lock.Lock()
-	atomic.StoreUint64(&txn.owner.count, uint64(txn.owner.fill.Count()))
-	txn.owner.lock.Unlock()
 }
 
 // commitCapacity grows all columns until they reach the max index
